@@ -22,7 +22,7 @@ COUNTERS = ("arrays", "asize", "maps", "nodes", "objs", "progs", "strs", "sent")
 
 
 def script_of(h):
-    ops = ["proj stats", "backend", "connect u1", "cycle", "line u1 name u1", "cycle",
+    ops = ["proj stats", "setcfg MaxEvaluationCost 100000000", "setcfg MaxArraySize 20000", "backend", "connect u1", "cycle", "line u1 name u1", "cycle",
            "line u1 do me xcall2:/obj/rc1:inp:name:0", "cycle", "line u1 warm", "cycle", "call /obj/rc1 nop", "call /obj/rc2 nop", "call /obj/rc1 dest", "call /obj/rc2 dest",
            "note B0", "snapshot", "leakcheck base", "call /obj/rc1 nop", "call /obj/rc2 nop", "note Base", "snapshot"]
     alive = {"o1": True, "o2": True}
@@ -46,6 +46,10 @@ def script_of(h):
             ops.append("call %s callout #%d" % (o, s["i"]))
         elif op == "rmco":
             ops.append("call %s %s" % (o, "rmco_h" if s.get("by") == "handle" else "rmco"))
+        elif op == "many":
+            ops.append("call %s many #%d #70000" % (o, s["i"]))
+        elif op == "unmany":
+            ops.append("call %s unmany" % o)
         elif op == "inp":
             # while an input_to is pending the next line would go to its callback: the command is escaped with '!'
             ops += ["line u1 %sdo me xcall2:%s:inp:%s:%d" % ("!" if pending else "", o, s["form"], s["i"]), "cycle"]
